@@ -126,3 +126,7 @@ class C01(core.Prop):
 
 
 PROP = C01()
+
+# shape families added after the first complete pass (DESIGN 8.6-8.11); appended to the bounds written into the evidence
+BOUNDS_ADDED = "; plus (sessions 2): cuts through aromatic bonds written with ':', one fused aromatic system, cubane cut into two faces (quadruple base edge), and for every case with >= 2 fragments one of pipeline.VARIANTS (from_graph with the base graph built in reverse/rotated order, from_fragment_dicts, resolve_all, resolve_iter, earlier unrelated use of the library)"
+PROP.BOUNDS = {k: v + BOUNDS_ADDED for k, v in PROP.BOUNDS.items()}
